@@ -29,6 +29,26 @@ Definition all_flags : modflags := {| m_max_gb := true; m_min_gb := true; m_max_
 
 Definition clear_events (s : state) : state := s <| events := [] |>.
 
+(* the per-key validator functions of the parameter sets (x/*/types/params.go, run by x/params
+   Subspace.Update on every governance change; one failing change fails the whole proposal, whose
+   cached writes -- the transient "modified" marks included -- are then discarded) *)
+Definition I64MAX : Z := 9223372036854775807.
+Definition pos_i64 (z : Z) : bool := (0 <? z) && (z <=? I64MAX).
+Definition coins_param_ok (l : list coin) : bool := bool_decide (l = []) || coins_sorted l.   (* nil, or Coins.IsValid *)
+Definition coin_param_ok (c : coin) : bool := (0 <=? c.2) && (c.2 <? MAXINT) && denom_ok c.1.  (* not negative, Coin.IsValid *)
+Definition share_ok (z : Z) : bool := (0 <=? z) && (z <=? P18).
+Definition pchange_valid (c : pchange) : bool :=
+  match c with
+  | PCProvDeposit c | PCNodeDeposit c => coin_param_ok c
+  | PCProvShare z | PCNodeShare z => share_ok z
+  | PCNodeActive z | PCSubDelay z | PCSessDelay z => pos_i64 z
+  | PCMaxGb c | PCMinGb c | PCMaxHr c | PCMinHr c => coins_param_ok c
+  | PCMaxSubGb z | PCMinSubGb z | PCMaxSubHr z | PCMinSubHr z => pos_i64 z
+  | PCSessProof _ | PCSwapEnabled _ => true
+  | PCSwapDenom d => denom_ok d
+  | PCSwapApprover t => ta_valid RAcc t
+  end.
+
 Definition step (s : state) (o : op) : outcome :=
   let s := clear_events s in
   match o with
@@ -42,7 +62,7 @@ Definition step (s : state) (o : op) : outcome :=
       | Ok s' => OOk s'
       | _ => ORejected
       end
-  | OGov cs => OOk (fold_left apply_pchange cs s)
+  | OGov cs => if forallb pchange_valid cs then OOk (fold_left apply_pchange cs s) else ORejected
   | OEnd =>
       match end_block s with
       | Ok s' => OOk (s' <| modified := no_flags |>)
